@@ -1802,11 +1802,22 @@ def remove_silence_from_performed_part(ppart):
 
     ppart.controls = shifted_controls
 
-    # Shift notes
+    # Shift notes. Tick positions (present in parts loaded from MIDI or
+    # match files) are shifted by the tick position of the first note, so
+    # that they keep agreeing with the times in seconds.
+    first_note = min(ppart.notes, key=lambda n: n["note_on"])
+    start_tick = first_note.get("note_on_tick")
+    if start_tick is None:
+        start_tick = seconds_to_midi_ticks(
+            start_time, mpq=ppart.mpq, ppq=ppart.ppq
+        )
     for note in ppart.notes:
         note["note_on"] = max(note["note_on"] - start_time, 0)
         note["note_off"] = max(note["note_off"] - start_time, 0)
         note["sound_off"] = max(note["sound_off"] - start_time, 0)
+        for key in ("note_on_tick", "note_off_tick"):
+            if note.get(key) is not None:
+                note[key] = max(note[key] - start_tick, 0)
 
     # Shift programs
     for program in ppart.programs:
